@@ -10,7 +10,7 @@ use crate::Tier;
 use serde_json::json;
 use std::panic::{catch_unwind, AssertUnwindSafe};
 
-const HEADS: &[&[u8]] = &[b"", b"id", b"id desc", b" lead", b"a  b ", b"x>y", b"\xffz \xc3", b"id d e", b"a\tb c\x0bd", b"id ", b" ", b"a  "];
+const HEADS: &[&[u8]] = &[b"", b"id", b"id desc", b" lead", b"a  b ", b"x>y", b"\xffz \xc3", b"id d e", b"a\tb c\x0bd", b"id ", b" ", b"a  ", b"a\rb", b"id left\rright end", b"\rx"];
 
 /// parse `out` with the reference model AND the real reader; both must give `want` (head, seq)
 fn parse_back_fasta(out: &[u8], want: &[(Vec<u8>, Vec<u8>)]) -> Result<(), String> {
@@ -222,7 +222,7 @@ pub fn c10(tier: Tier) -> i32 {
         Report {
             property: "C10".into(),
             tier: tier.name().into(),
-            rule: format!("sequences = first n positional letters, n = 0..{}; every wrap width 1..n+2; {} headers (empty, spaces leading/trailing/multiple, '>' inside, non-UTF-8); entry points write_to, write_parts, write_wrap, write_head, write_id_desc, write_seq, write_wrap_seq, write_seq_iter, write_wrap_seq_iter, OwnedRecord::{{write,write_wrap}}, RefRecord::{{write,write_wrap}} (RefRecord parsed from every line splitting of the sequence, LF and CRLF); ALL 2^(n-1) compositions of the sequence into chunks, each also with 1-2 empty chunks inserted at every position; oracle: output parses back (reference parser and real reader) to (header, sequence), 2-3 records back to back parse to the list, wrapped lines <= width and all but the last = width, chunked output = whole output byte for byte (n >= 1)", maxn, HEADS.len()),
+            rule: format!("sequences = first n positional letters, n = 0..{}; every wrap width 1..n+2; {} headers (empty, spaces leading/trailing/multiple, '>' inside, non-UTF-8, CR inside / leading); entry points write_to, write_parts, write_wrap, write_head, write_id_desc, write_seq, write_wrap_seq, write_seq_iter, write_wrap_seq_iter, OwnedRecord::{{write,write_wrap}}, RefRecord::{{write,write_wrap}} (RefRecord parsed from every line splitting of the sequence, LF and CRLF); ALL 2^(n-1) compositions of the sequence into chunks, each also with 1-2 empty chunks inserted at every position; oracle: output parses back (reference parser and real reader) to (header, sequence), 2-3 records back to back parse to the list, wrapped lines <= width and all but the last = width, chunked output = whole output byte for byte (n >= 1)", maxn, HEADS.len()),
             exhaustive: true,
             assumptions: vec!["sequence bytes are positional letters (no LF, CR, '>'); the writers never inspect sequence bytes".into()],
             extra: json!({"states_note": "states = (sequence length, width, header, entry point, chunking) cases; transitions = writer calls"}),
